@@ -322,11 +322,17 @@ def case_xoprob(ctx, c):
     qch = numpy.array(qch, dtype="int64"); qph = numpy.array(qph, dtype="int64"); qge = numpy.array(qge)
     ix = g.permutation(len(mch))
     std = g.random() < 0.5
-    gmap = StandardGeneticMap(mch[ix], mph[ix], mge[ix]) if std else ExtendedGeneticMap(mch[ix], mph[ix], mph[ix], mge[ix])
+    cm = std and g.random() < 0.3      # positions declared in centimorgans (documented unit option); the oracle keeps Morgans
+    if cm:
+        gmap = StandardGeneticMap(mch[ix], mph[ix], mge[ix] * 100.0, vrnt_genpos_units="cM")
+    else:
+        gmap = StandardGeneticMap(mch[ix], mph[ix], mge[ix]) if std else ExtendedGeneticMap(mch[ix], mph[ix], mph[ix], mge[ix])
     hal = g.random() < 0.5
     fn = HaldaneMapFunction() if hal else KosambiMapFunction()
     nq = len(qch)
     icls = "%s/%s" % ("StandardGeneticMap" if std else "ExtendedGeneticMap", "Haldane" if hal else "Kosambi")
+    if cm:
+        icls += "/map given in cM"
     if extr:
         icls += "/markers beyond the ends of the map"
     # state of the matrix before the map is applied: fresh; positions/probabilities supplied to the constructor; or already
@@ -387,6 +393,63 @@ class _AbsConst(numpy.random.Generator):
         return self.v if size is None else numpy.full(size, self.v)
 
 
+def case_dense(ctx, c):
+    """Dense marker panels: thousands of markers whose adjacent crossover probabilities are tiny (1e-6 .. 1e-4).  No single interval
+    can be tested, but the number of switches pooled over all intervals and gametes is Binomial(n, p) and large."""
+    from pybrops.popgen.gmat.DensePhasedGenotypeMatrix import DensePhasedGenotypeMatrix
+    from pybrops.core.util.mate import dense_dh
+    g = ctx.rng("dense", c)
+    LOG.install()
+    m = int(g.choice([1200, 2000, 3000])); nchr = int(g.integers(1, 3))
+    chrgrp = numpy.sort(g.integers(1, nchr + 1, m)).astype("int64"); chrgrp[0] = 1
+    st = pop.chrom_starts(chrgrp)
+    p = float(g.choice([2e-6, 5e-6, 1e-5, 1.4e-5, 3e-5, 1e-4]))
+    xo = numpy.full(m, p); xo[st] = 0.5
+    mat = numpy.zeros((2, 4, m), dtype="int8"); mat[1] = 1
+    pg = DensePhasedGenotypeMatrix(mat, taxa=numpy.array(["f%d" % i for i in range(4)], dtype=object), taxa_grp=numpy.zeros(4, dtype="int64"),
+                                   vrnt_chrgrp=chrgrp, vrnt_phypos=numpy.arange(1, m + 1, dtype="int64") * 1000, vrnt_xoprob=xo.copy())
+    pg.group_vrnt()
+    pname = ["TwoWayDHCross", "TwoWayCross", "SelfCross"][c % 3]
+    icls = "dense panel, per-interval probability %g (pooled over intervals)" % p
+    ctx.case("dense:%s" % icls, m, nchr, p, pname)
+    nonstart = ~st
+
+    def run(seed, rounds):
+        rng = numpy.random.Generator(numpy.random.PCG64(seed))
+        P = proto_class(pname)(rng=rng)
+        xc = numpy.array([[(i + c_) % 4 for i in range(P.nparent)] for c_ in range(2)], dtype="int64")
+        k = 0; n = 0; ks = 0; ns = 0
+        for _ in range(rounds):
+            LOG.clear()
+            P.mate(pg, xc, 10, 250, nself=0)
+            dense_dh(pg.mat, numpy.repeat(numpy.arange(4), 1250), pg.vrnt_xoprob, rng)
+            for (geno, sel, exo, gam) in LOG.events:
+                P0 = geno[0][sel]; P1 = geno[1][sel]
+                inf = P0 != P1
+                if not inf.all():
+                    continue          # later stages of a protocol work on partly homozygous hybrids: first-stage meioses only
+                src = gam == P1
+                sw = src[:, 1:] != src[:, :-1]
+                k += int(sw[:, nonstart[1:]].sum()); n += int(sw.shape[0]) * int(nonstart[1:].sum())
+                ks += int(src[:, 0].sum()); ns += int(src.shape[0])
+            LOG.clear()
+        return k, n, ks, ns
+    level = ST.ALPHA_FAMILY / 64.0
+    k, n, ks, ns = run(int(g.integers(2 ** 62)), 2)
+    ctx.sumnote("dense-panel interval observations", n)
+    site = "mat_meiosis/dense_meiosis via %s" % pname
+    for clause, kk, nn, pp, what in (("C02.adjacent", k, n, p, "switches pooled over all intervals"), ("C02.segregation", ks, ns, 0.5, "first marker")):
+        pv = ST.binom_pvalue(kk, nn, pp)
+        if pv >= level:
+            ctx.ok(clause); continue
+        k2, n2, ks2, ns2 = run(int(g.integers(2 ** 62)), 8)
+        kk2, nn2 = (k2, n2) if clause == "C02.adjacent" else (ks2, ns2)
+        pv2 = ST.binom_pvalue(kk2, nn2, pp)
+        ctx.check(clause, not (pv2 < ST.ALPHA_CONFIRM), site, "frequency == probability (confirmed rejection)", icls,
+                  what="%s (%s): first stage %d/%d vs p=%.6g (p-value %.3g), confirmation %d/%d (p-value %.3g)" % (clause, what, kk, nn, pp, pv, kk2, nn2, pv2),
+                  witness={"markers": m, "chromosomes": nchr, "p": p, "protocol": pname, "first": [kk, nn, pv], "confirm": [kk2, nn2, pv2]}, coords=[c, "dense"])
+
+
 def plan(ctx):
     qn, tn = 12, 192
     ids = list(ctx.case_ids(qn, tn))
@@ -406,6 +469,8 @@ def run_shard(ctx):
         case_exact(ctx, c)
     for c in ctx.case_ids(300, 8000):
         case_xoprob(ctx, c)
+    for c in ctx.case_ids(6, 64):
+        case_dense(ctx, c)
 
 
 def replay(ctx, coords):
@@ -413,6 +478,8 @@ def replay(ctx, coords):
         case_exact(ctx, int(coords[0]))
     elif coords[1] == "xoprob":
         case_xoprob(ctx, int(coords[0]))
+    elif coords[1] == "dense":
+        case_dense(ctx, int(coords[0]))
     else:
         ids, level, ntot = plan(ctx)
         case_stat(ctx, int(coords[0]), level, 300000 if ctx.tier == "quick" else 1000000)
